@@ -6,20 +6,6 @@ import PygProofs.Lemmas.PerDictJoin
 
 namespace Pyg
 
-/-- the key columns occur once each among the columns of `t` -/
-def OnNodup (on : List String) (t : Table) : Prop := (t.cols.filter fun c => on.contains c).Nodup
-
-theorem linter_eq_filter_on {on : List String} {a b : Table} (h : Shares on a b) :
-    linter a.cols b.cols = a.cols.filter (fun c => on.contains c) := by
-  simp only [linter]
-  apply List.filter_congr
-  intro c hc
-  by_cases hb : c ∈ b.cols
-  · have : c ∈ on := (h c).1 ⟨hc, hb⟩
-    simp [hb, this]
-  · have : c ∉ on := fun ho => hb ((h c).2 ho).2
-    simp [hb, this]
-
 /-! ### `a * b` returns -/
 
 def cellD : Val → Cell
@@ -130,17 +116,6 @@ theorem div_total (on : List String) (hon : on ≠ []) (b a : Table) (hsh : Shar
 
 /-! ### `_join_dictable_with_defaults` returns -/
 
-theorem concat2_onNodup (on : List String) (D0 X : Table) (h : OnNodup on D0)
-    (hon : ∀ c ∈ on, c ∈ D0.cols) : OnNodup on (D0.concat2 X) := by
-  simp only [OnNodup, concat2_cols, List.filter_append]
-  have : (X.cols.filter fun k => !D0.cols.contains k).filter (fun c => on.contains c) = [] := by
-    simp only [List.filter_eq_nil_iff, List.mem_filter]
-    rintro c ⟨_, h2⟩ ho
-    have : c ∈ D0.cols := hon c (by simpa using ho)
-    simp [this] at h2
-  rw [this, List.append_nil]
-  exact h
-
 theorem stage_total (on : List String) (hon : on ≠ []) (D0 src other : Table)
     (dd : List (String × Cell)) (hsh : Shares on src other) (hnd : OnNodup on D0)
     (hD0 : ∀ c ∈ on, c ∈ D0.cols) :
@@ -163,7 +138,7 @@ theorem joinDef_total (on : List String) (hon : on ≠ []) (a b : Table)
   obtain ⟨d0, hm, hn0⟩ := mul_total on hon a b hsh hnd
   have hc0 : ∀ c ∈ on, c ∈ d0.cols := by
     intro c hc
-    exact ((mul_sem on hon a b d0 hsh hm).2.2 c).2 (.inl ((hsh c).2 hc).1)
+    exact ((mul_sem on hon a b d0 hsh hnd hm).2.2.1 c).2 (.inl ((hsh c).2 hc).1)
   obtain ⟨d1, h1, hn1, hc1⟩ := stage_total on hon d0 b a da hsh.symm hn0 hc0
   obtain ⟨d2, h2, hn2, _⟩ := stage_total on hon d1 a b db hsh hn1 hc1
   refine ⟨d2, ?_, hn2⟩
@@ -247,7 +222,6 @@ theorem fold_def_total (on : List String) (hon : on ≠ []) (defaults : List (St
 theorem joinNW_total (on : List String) (hon : on ≠ []) (N W : List (String × Table))
     (defaults : List (String × Cell)) (hne : N ++ W ≠ [])
     (hkN : ∀ kv ∈ N, KeyedSrc on kv.2 kv.1) (hkW : ∀ kv ∈ W, KeyedSrc on kv.2 kv.1)
-    (hoN : ∀ kv ∈ N, OnNodup on kv.2) (hoW : ∀ kv ∈ W, OnNodup on kv.2)
     (hnN : (N.map (·.1)).Nodup) (hnW : (W.map (·.1)).Nodup)
     (hdisj : ∀ a ∈ N, ∀ b ∈ W, a.1 ≠ b.1)
     (hdef : ∀ kv ∈ W, (dfltOf defaults kv.1).isSome = true) :
@@ -259,7 +233,7 @@ theorem joinNW_total (on : List String) (hon : on ≠ []) (N W : List (String ×
     subst hN
     have hnd' : n.1 ∉ ns.map (·.1) ∧ (ns.map (·.1)).Nodup := List.nodup_cons.1 hnN
     exact fold_mul_total on hon defaults ns n.2 [mkSrc defaults (n.1, n.2)]
-      (AccOK.base defaults (hkN n (by simp))) (hoN n (by simp))
+      (AccOK.base defaults (hkN n (by simp))) (hkN n (by simp)).on_nodup
       (fun kv hkv => hkN kv (by simp [hkv])) hnd'.2
       (by
         intro kv hkv s hs he
@@ -275,7 +249,7 @@ theorem joinNW_total (on : List String) (hon : on ≠ []) (N W : List (String ×
     have hnd' : w.1 ∉ ws.map (·.1) ∧ (ws.map (·.1)).Nodup := List.nodup_cons.1 hnW
     obtain ⟨v, hv⟩ := Option.isSome_iff_exists.1 (hdef w (by simp))
     exact fold_def_total on hon defaults ws w.2 _ [mkSrc defaults (w.1, w.2)]
-      (AccOK.base defaults (hkW w (by simp))) (DefInv.base (hkW w (by simp)) hv) (hoW w (by simp))
+      (AccOK.base defaults (hkW w (by simp))) (DefInv.base (hkW w (by simp)) hv) (hkW w (by simp)).on_nodup
       (fun kv hkv => hkW kv (by simp [hkv])) hnd'.2
       (by
         intro kv hkv s hs he
@@ -323,8 +297,7 @@ theorem joinNW_total (on : List String) (hon : on ≠ []) (N W : List (String ×
 /-- **`joinTables` returns a table** -/
 theorem joinTables_total (on : List String) (hon : on ≠ []) (tables : List (String × Table))
     (defaults : List (String × Cell)) (hne : tables ≠ [])
-    (hks : ∀ kv ∈ tables, KeyedSrc on kv.2 kv.1) (hos : ∀ kv ∈ tables, OnNodup on kv.2)
-    (hnd : (tables.map (·.1)).Nodup) :
+    (hks : ∀ kv ∈ tables, KeyedSrc on kv.2 kv.1) (hnd : (tables.map (·.1)).Nodup) :
     ∃ d, joinTables tables defaults = some (.ok (some d)) := by
   rw [joinTables_eq]
   have memN : ∀ kv, kv ∈ (tables.filter fun kv => !(defaults.map (·.1)).contains kv.1) →
@@ -343,8 +316,6 @@ theorem joinTables_total (on : List String) (hon : on ≠ []) (tables : List (St
     cases (defaults.map (·.1)).contains kv.1 <;> simp [hkv]
   · exact fun kv h => hks kv (memN kv h).1
   · exact fun kv h => hks kv (memW kv h).1
-  · exact fun kv h => hos kv (memN kv h).1
-  · exact fun kv h => hos kv (memW kv h).1
   · exact hnd.sublist (List.filter_sublist.map _)
   · exact hnd.sublist (List.filter_sublist.map _)
   · intro a ha b hb he
@@ -369,17 +340,6 @@ theorem item_cols (d t : Table) (key : String) (on : List String) (h : item d ke
         · exact select_cols _ _ _ h
         · cases h
       · cases h
-
-theorem item_onNodup (d t : Table) (key : String) (on : List String) (hd : d.cols.Nodup)
-    (hkey : key ∉ on) (h : item d key on = .ok t) : OnNodup on t := by
-  simp only [OnNodup, item_cols d t key on h, List.filter_append]
-  have e1 : (linter d.cols on).filter (fun c => on.contains c) = linter d.cols on := by
-    apply List.filter_eq_self.2
-    intro c hc
-    simpa using (mem_linter.1 hc).2
-  have e2 : [key].filter (fun c => on.contains c) = [] := by simp [hkey]
-  rw [e1, e2, List.append_nil]
-  exact hd.sublist List.filter_sublist
 
 /-- `_item` succeeds when the value column can be chosen: a column named like the parameter, or a
 column `data` that is not a key column, or exactly one non-key column -/
